@@ -455,7 +455,7 @@ func runC31(c *core.Ctx) {
 			names = append(names, p.Name)
 		}
 	}
-	c.Rule = "all ordered pairs (t1, t2) of explored states with <= 1 atom (every leaf type/value, leaf-list incl. both orders, list entry of every key type, nested leaves and containers of entries, presence container, choice cases, augmented nodes) plus all pairs of states with <= 2 atoms over the ordered-by-user list atoms (quick: simple-union packages only), on " + strings.Join(names, ", ") + "; thorough adds (<= 2 atoms) x (<= 1 atom) in both roles over the focused alphabet on vtus, vtuw, voccs, vocco (variants plain/none and unknown/IgnoreExtraFields only); per pair the documents refjson(Model(t2)) with bare names and with RFC 7951 module prefixes, and one document per JSON object position with an unknown member added (scalar; thorough also object-valued), each x {no option, IgnoreExtraFields}; every case is unmarshalled by the generated Unmarshal into a fresh build of t1 and the observed Model is compared with the reference merge; non-trivial = both trees non-empty and the pair judged"
+	c.Rule = "all ordered pairs (t1, t2) of explored states with <= 1 atom (every leaf type/value, leaf-list incl. both orders, list entry of every key type, nested leaves and containers of entries, presence container, choice cases, augmented nodes) plus all pairs of states with <= 2 atoms over the ordered-by-user list atoms (quick: simple-union packages only), on " + strings.Join(names, ", ") + "; thorough adds (<= 2 atoms) x (<= 1 atom) in both roles over the focused alphabet on vtus, vtuw, voccs, vocco (variants plain/none and unknown/IgnoreExtraFields only); per pair the documents refjson(Model(t2)) with bare names and with RFC 7951 module prefixes, and one document per JSON object position with an unknown member added (scalar; thorough also object-valued), each x {no option, IgnoreExtraFields}; every case is unmarshalled by the generated Unmarshal into a fresh build of t1 and the observed Model is compared with the reference merge; plus, with a LIST ENTRY of t1 as the target of Unmarshal: every keyed entry x every ordered pair of values of one leaf / leaf-list below it, document = ygot's rendering of the entry with the new value, plain / with an unknown scalar member / with an unknown object member, each x {no option, IgnoreExtraFields}; plus t1 trees whose equal leaves share storage; non-trivial = both trees non-empty and the pair judged"
 	c.R.Assume("builder, observer and refjson are correct; the document alone is acceptable (checked on an empty root first: otherwise the pair belongs to C01 / C18 and is excluded, counted)")
 	c.R.Note("not_judged", []string{
 		"documents that mention an unkeyed list (no key to merge by; ygot appends)",
@@ -501,6 +501,8 @@ func runC31(c *core.Ctx) {
 		if len(all) > 3 {
 			c.R.Sample(map[string]interface{}{"pkg": p.Name, "t1": atomNames(all[len(all)/2]), "t2": atomNames(all[len(all)/3])})
 		}
+		// Unmarshal into a list entry as the target (c31_entry.go)
+		runC31EntryTargets(c, p)
 	}
 	// shared storage in t1: every t1 of <= 2 leaf / leaf-list atoms (focused alphabet, plus all leaf-list atoms)
 	// in which equal values share one variable / one slice x every single-atom document over the same atoms
@@ -533,6 +535,9 @@ func runC31(c *core.Ctx) {
 
 func replayC31(c *core.Ctx, raw []byte) (bool, string) {
 	c19VerifDir = c.VerifDir
+	if v, d, ok := replayC31Entry(raw); ok {
+		return v, d
+	}
 	var pc pairCase
 	if err := json.Unmarshal(raw, &pc); err != nil || pc.Pkg == "" {
 		return false, "bad case"
